@@ -104,6 +104,21 @@ Proof.
   rewrite IH. apply insert_by_map. exact H.
 Qed.
 
+Lemma filter_map_comm : forall {A B} (g : A -> B) (f : A -> bool) (f' : B -> bool) l,
+  (forall x, f' (g x) = f x) -> filter f' (map g l) = map g (filter f l).
+Proof.
+  intros A B g f f' l H. induction l as [|x t IH]; [reflexivity|]. cbn. rewrite H. destruct (f x); cbn; rewrite IH; reflexivity.
+Qed.
+
+Lemma last_map_comm : forall {A B} (g : A -> B) l d, last (map g l) (g d) = g (last l d).
+Proof.
+  intros A B g l d. induction l as [|x t IH]; [reflexivity|]. destruct t as [|y t]; [reflexivity|].
+  exact IH.
+Qed.
+
+Lemma hd_map_comm : forall {A B} (g : A -> B) l d, hd (g d) (map g l) = g (hd d l).
+Proof. intros A B g l d. destruct l; reflexivity. Qed.
+
 (* ---- an induction principle for values (lists of values inside) -------------------------------- *)
 Section ValInd.
   Variable P : val -> Prop.
@@ -239,10 +254,26 @@ Section Equiv.
     destruct v as [| | | |t rs|vs]; try reflexivity. cbn. f_equal. rewrite !map_map. reflexivity.
   Qed.
 
-  Lemma prevnext_rv : forall w t r s, prevnext w (rn_tab t) r s = rv (prevnext w t r s).
+  Definition gk (x : list val * Z) : list val * Z := (map rv (fst x), snd x).
+
+  Lemma krow_lt_rv : forall ds pa a pb b, krow_lt ds pa (gk a) pb (gk b) = krow_lt ds pa a pb b.
+  Proof. intros. unfold krow_lt, gk. cbn [fst snd]. rewrite !key_lt_rv. reflexivity. Qed.
+
+  Lemma prevnext_tab : forall w t ds p me ks,
+    prevnext w (rn_tab t) ds p me ks = rv (prevnext w t ds p me ks).
+  Proof. intros. unfold prevnext. destruct (w =? 0); [reflexivity|]. destruct (w =? 1); reflexivity. Qed.
+
+  Lemma prevnext_rv : forall w t ds p me ks,
+    prevnext w (rn_tab t) ds p (gk me) (map gk ks) = rv (prevnext w t ds p me ks).
   Proof.
-    intros w t r s. unfold prevnext. destruct (index_of r s 0) as [i|]; [|reflexivity].
-    destruct (w =? 0); [destruct i; reflexivity|]. destruct (w =? 1); reflexivity.
+    intros w t ds p me ks. unfold prevnext.
+    rewrite (filter_map_comm gk (fun k => krow_lt ds true k p me)) by (intro k; apply krow_lt_rv).
+    rewrite (filter_map_comm gk (fun k => krow_lt ds p me true k)) by (intro k; apply krow_lt_rv).
+    destruct (w =? 0).
+    - change (([] : list val), 0) with (gk ([], 0)). rewrite last_map_comm. reflexivity.
+    - destruct (w =? 1).
+      + change (([] : list val), 0) with (gk ([], 0)). rewrite hd_map_comm. reflexivity.
+      + rewrite map_length. reflexivity.
   Qed.
 
   Lemma lookup_env_rv : forall x (env : list (name * val)),
@@ -346,21 +377,30 @@ Section Equiv.
     intros t r cs. rewrite rmap_map. apply rmap_fmap. intros c _. rewrite <- rr_fmap. apply Hcell.
   Qed.
 
+  Lemma obvals_rn : forall t r (ob : list (bool * name)),
+    rmap (fun p => cellf' (rn_tab t) r (snd p)) (rn_ob rn_col t ob) = rfmap (map rv) (rmap (fun p => cellf t r (snd p)) ob).
+  Proof.
+    intros t r ob. unfold rn_ob. rewrite rmap_map. cbn [snd]. apply rmap_fmap.
+    intros p _. rewrite <- rr_fmap. apply Hcell.
+  Qed.
+
+  Lemma keyed_rows_rn : forall t ob rows,
+    keyed_rows cellf' (rn_tab t) (rn_ob rn_col t ob) rows = rfmap (map gk) (keyed_rows cellf t ob rows).
+  Proof.
+    intros t ob rows. unfold keyed_rows.
+    rewrite (rmap_fmap gk (fun r => rbind (rmap (fun p => cellf t r (snd p)) ob) (fun kv => ROk (kv, r)))).
+    - rewrite rbind_fmap. destruct (rmap _ rows) as [keyed|k]; [|reflexivity]. cbn [rbind rfmap]. f_equal.
+      unfold rn_ob. rewrite map_map. cbn [fst].
+      apply (sort_by_map gk (fun a b => key_lt (map fst ob) (fst a) (fst b))).
+      intros a b. unfold gk. cbn [fst]. apply key_lt_rv.
+    - intros r _. rewrite obvals_rn. destruct (rmap (fun p => cellf t r (snd p)) ob); reflexivity.
+  Qed.
+
   Lemma sort_rows_rn : forall t ob rows,
     sort_rows cellf' (rn_tab t) (rn_ob rn_col t ob) rows = sort_rows cellf t ob rows.
   Proof.
-    intros t ob rows. unfold sort_rows, rn_ob.
-    set (g := fun x : list val * Z => (map rv (fst x), snd x)).
-    rewrite (rmap_fmap g (fun r => rbind (rmap (fun p => cellf t r (snd p)) ob) (fun kv => ROk (kv, r)))).
-    - rewrite rbind_fmap. apply rbind_ext. intros keyed _. f_equal.
-      rewrite map_map. cbn [fst].
-      rewrite (sort_by_map g (fun a b => key_lt (map fst ob) (fst a) (fst b))).
-      + rewrite map_map. reflexivity.
-      + intros a b. unfold g. cbn [fst]. apply key_lt_rv.
-    - intros r _. rewrite rmap_map. cbn [snd].
-      rewrite (rmap_fmap rv (fun p => cellf t r (snd p))).
-      + destruct (rmap (fun p => cellf t r (snd p)) ob); reflexivity.
-      + intros p _. rewrite <- rr_fmap. apply Hcell.
+    intros t ob rows. unfold sort_rows. rewrite keyed_rows_rn. rewrite rbind_fmap. apply rbind_ext.
+    intros ks _. rewrite map_map. reflexivity.
   Qed.
 
   Lemma row_matches_rn : forall t r kvs,
@@ -407,8 +447,9 @@ Section Equiv.
       destruct v1 as [| | |t r| |]; try discriminate. cbn in Ht. subst t.
       apply rbind_ok in Hev. destruct Hev as [? [_ Hev]]. apply rbind_ok in Hev. destruct Hev as [? [_ Hev]].
       apply rbind_ok in Hev. destruct Hev as [? [_ Hev]]. apply rbind_ok in Hev. destruct Hev as [s [_ Hev]].
-      inversion Hev; subst. unfold prevnext. destruct (index_of r s 0) as [i|]; [|reflexivity].
-      destruct (w =? 0); [destruct i; reflexivity|]. destruct (w =? 1); reflexivity.
+      apply rbind_ok in Hev. destruct Hev as [kv [_ Hev]].
+      inversion Hev; subst. unfold prevnext.
+      destruct (w =? 0); [reflexivity|]. destruct (w =? 1); reflexivity.
   Qed.
 
   Lemma comp_elems_typed : forall src self env row v vs T el,
@@ -505,19 +546,30 @@ Section Equiv.
         destruct (rmap (fun c => cellf T r c) gb) as [mine|k]; [|reflexivity]. cbn [rbind].
         rewrite (rfilter_ext _ (fun r' => rbind (rmap (fun c => cellf T r' c) gb)
                                               (fun theirs => ROk (keys_eqb mine theirs)))).
-        * destruct (rfilter _ rows) as [grp|k]; [|reflexivity]. cbn [rbind]. rewrite sort_rows_rn.
-          destruct (sort_rows cellf T ob grp) as [s|k]; [|reflexivity]. cbn. rewrite prevnext_rv. reflexivity.
+        * destruct (rfilter _ rows) as [grp|k]; [|reflexivity]. cbn [rbind]. rewrite keyed_rows_rn, rbind_fmap.
+          destruct (keyed_rows cellf T ob grp) as [ks|k]; [|reflexivity]. cbn [rbind].
+          rewrite obvals_rn, rbind_fmap.
+          destruct (rmap (fun p => cellf T r (snd p)) ob) as [kv|k]; [|reflexivity]. cbn [rbind rn_res].
+          rewrite summary_source_rn. f_equal.
+          replace (map fst (rn_ob rn_col T ob)) with (map fst ob) by (unfold rn_ob; rewrite map_map; reflexivity).
+          change (map rv kv, r) with (gk (kv, r)).
+          destruct (summary_source d T); cbn [option_map]; apply prevnext_rv.
         * intros r' _. rewrite keyvals_rn. rewrite rbind_fmap. apply rbind_ext. intros theirs _.
           rewrite keys_eqb_rv. reflexivity.
       + destruct gb; [|discriminate]. destruct ob; [|discriminate]. cbn.
         destruct (rfilter _ rows) as [grp|k]; [|reflexivity]. cbn [rbind].
-        change (sort_rows cellf' (rn_tab t) [] grp) with (sort_rows cellf t [] grp).
-        destruct (sort_rows cellf t [] grp) as [s|k]; [|reflexivity]. cbn. rewrite prevnext_rv. reflexivity.
+        change (keyed_rows cellf' (rn_tab t) [] grp) with (keyed_rows cellf t [] grp).
+        destruct (keyed_rows cellf t [] grp) as [ks|k]; [|reflexivity]. cbn [rbind rn_res].
+        rewrite summary_source_rn. f_equal.
+        destruct (summary_source d t); cbn [option_map]; apply prevnext_tab.
     - (* EPrim1 *) intros f e IH self G env row Hok Hwf. cbn in Hwf. cbn [ren eval]. rewrite (IH self G env row Hok Hwf).
       destruct (ev self row env e); [|reflexivity]. cbn. apply prim1_nat.
     - (* EPrim2 *) intros f a IHa b IHb self G env row Hok Hwf. cbn in Hwf. apply andb_true_iff in Hwf.
       destruct Hwf as [Ha Hb]. cbn [ren eval]. rewrite (IHa self G env row Hok Ha), (IHb self G env row Hok Hb).
-      destruct (ev self row env a); [|reflexivity]. destruct (ev self row env b); [|reflexivity]. cbn. apply prim2_nat.
+      destruct (f =? 3).
+      + destruct (ev self row env a) as [va|k]; [|reflexivity]. cbn [rn_res rbind]. rewrite truthy_rv.
+        destruct (truthy va); reflexivity.
+      + destruct (ev self row env a); [|reflexivity]. destruct (ev self row env b); [|reflexivity]. cbn. apply prim2_nat.
     - (* EIf *) intros c IHc a IHa b IHb self G env row Hok Hwf. cbn in Hwf. apply andb_true_iff in Hwf.
       destruct Hwf as [Hwf Hb]. apply andb_true_iff in Hwf. destruct Hwf as [Hc Ha]. cbn [ren eval].
       rewrite (IHc self G env row Hok Hc). destruct (ev self row env c) as [vc|k]; [|reflexivity]. cbn [rn_res rbind].
@@ -569,13 +621,19 @@ Section Cells.
     assert (Hw : forall x, wrap (ctype co) x = ROk v -> has_tab v u).
     { intros x Hx. apply wrap_has_tab in Hx. destruct (ctype co); inversion Hct; subst; exact Hx. }
     destruct (cformula co) as [f|].
-    - apply rbind_ok in Hc. destruct Hc as [x [_ Hx]]. eapply Hw; eauto.
+    - destruct (existsb (Z.eqb r) (trows tb)).
+      + apply rbind_ok in Hc. destruct Hc as [x [_ Hx]]. eapply Hw; eauto.
+      + eapply Hw; eauto.
     - eapply Hw; eauto.
   Qed.
 
   Lemma data_at_rn : forall l r, data_at (map (fun p : Z * val => (fst p, rv (snd p))) l) r = rv (data_at l r).
   Proof.
-    intros l r. unfold data_at. induction l as [|[y v] l IH]; [reflexivity|]. cbn. destruct (y =? r); [reflexivity | exact IH].
+    assert (Hl : forall (l : list (Z * val)) r, lookup_z r (map (fun p : Z * val => (fst p, rv (snd p))) l)
+                                              = option_map rv (lookup_z r l)).
+    { intros l r. induction l as [|[y v] l IH]; [reflexivity|]. cbn. destruct (y =? r); [reflexivity | exact IH]. }
+    intros l r. unfold data_at. rewrite !Hl. destruct (lookup_z r l); [reflexivity|].
+    destruct (lookup_z 0 l); reflexivity.
   Qed.
 
   Lemma cell_rn : forall n t r c,
@@ -590,7 +648,9 @@ Section Cells.
     destruct (cformula co) as [f|] eqn:Hf; cbn [option_map].
     - destruct (eval_rn_mut rn_tab rn_col prim1 prim2 tab_inj col_inj prim1_nat prim2_nat d group_stable
                   (cell prim1 prim2 d n) (cell prim1 prim2 (rdoc d) n) IHn (cell_sound n)) as [He _].
-      specialize (He f (tname tb) [] [] r). cbn [map] in He. rewrite He.
+      specialize (He f (tname tb) [] [] r). cbn [map] in He. cbn [rn_table trows].
+      destruct (existsb (Z.eqb r) (trows tb)); [|rewrite data_at_rn; apply wrap_rv].
+      rewrite He.
       + destruct (eval prim1 prim2 d (cell prim1 prim2 d n) (tname tb) r [] f); [|reflexivity]. cbn. apply wrap_rv.
       + intros x T v HG. discriminate.
       + eapply Hwf; eauto using find_table_in, find_col_in.
